@@ -490,14 +490,24 @@ func copyMap(m map[string]string) map[string]string {
 	return out
 }
 
+// relinkSoftJoin: many-to-many through a soft-delete join model - a target whose join row to the
+// owner is still stored soft-deleted (left by an earlier removal) may be appended to that owner
+// again ("Append adds"). On the unchanged tree this is a deviation of gorm with its own signature
+// (many2many-soft-delete-join-model-relink-after-removal-not-stored); false = not generated.
+const relinkSoftJoin = false
+
 // pickTargets chooses n targets for owner o; avoid = keys that must not be chosen (no-share rules).
 func (k *kase) pickTargets(o string, n int, forDelete bool, allowNew bool, avoid map[string]bool, noOther bool) []*targ {
 	r, m := k.r, k.m
 	var out []*targ
+	var deadRows map[string]int
+	if k.spec.softJoin && !relinkSoftJoin && !forDelete {
+		deadRows = k.spec.readDead()[o]
+	}
 	for len(out) < n {
 		var linked, free, other, gone []string
 		for _, t := range sortedKeys(boolSet(m.recs)) {
-			if avoid[t] {
+			if avoid[t] || deadRows[t] > 0 {
 				continue
 			}
 			ls := m.linkedTo(t)
